@@ -39,6 +39,12 @@ def mk_candles(stream, base, a, b, form="candle"):
             out.append(Candle(open=o, high=h, low=l, close=c, volume=v, timestamp=t))
         elif form == "dict":
             out.append({"open": o, "high": h, "low": l, "close": c, "volume": v, "timestamp": t})
+        elif form == "dict_iso":     # timestamps as ISO strings without offset (JSON input)
+            out.append({"open": o, "high": h, "low": l, "close": c, "volume": v,
+                        "timestamp": t.isoformat() if t is not None else None})
+        elif form == "candle_iso":
+            out.append(Candle(open=o, high=h, low=l, close=c, volume=v,
+                              timestamp=t.isoformat() if t is not None else None))
         elif form == "list_ts_last":
             out.append([o, h, l, c, v, t] if t is not None else [o, h, l, c, v])
         else:
@@ -58,7 +64,12 @@ def flat_args(data, base):
             for k in ("open", "high", "low", "close", "volume"):
                 n, d, _ = frac(it.get(k, 0))
                 out += [n, d]
-            out.append(ts_of(it.get("timestamp"), base))
+            tsv = it.get("timestamp")
+            if isinstance(tsv, str):
+                from datetime import datetime as _dt
+
+                tsv = _dt.fromisoformat(tsv)
+            out.append(ts_of(tsv, base))
         elif isinstance(it, list):
             out.append(len(it))
             for x in it:
@@ -174,11 +185,11 @@ class Session:
             data = mk_candles(sc["stream"], self.base, step[1], step[2], form)
             if len(data) == 1 and sc.get("single_unwrapped", True):
                 data = data[0]
-            before = flat_args(data, self.base) if form != "candle" else []
+            before = flat_args(data, self.base) if not form.startswith("candle") else []
             try:
                 self.obj.append(data)
             finally:
-                self.args = (before, flat_args(data, self.base) if form != "candle" else [])
+                self.args = (before, flat_args(data, self.base) if not form.startswith("candle") else [])
         elif op == "collapse":
             mgrs = ([self.obj.candle_manager] if not hexobj
                     else [self.indicator(i).candle_manager for i in self.active])
@@ -281,7 +292,8 @@ class Session:
         else:
             rv = val(res)
         ai = int(getattr(ind, "_active_index", 0)) if ind is not None else 0
-        return {"w": what, "j": j, "n": ref(nm), "i": idx, "r": rv, "ai": ai}
+        whole = nm in self.live.values()       # the indicator's own name: one key, never split
+        return {"w": what, "j": j, "n": {"n": nm, "f": ""} if whole else ref(nm), "i": idx, "r": rv, "ai": ai}
 
     def do_analysis(self, r):
         """r = ("an", fn, a, b, length or None, index, variant)"""
